@@ -1,0 +1,97 @@
+// Verification hooks (compiled only with -DBLOCH_VERIF). Add-only instrumentation used by the
+// model-based conformance harnesses; with the define off this header is empty.
+#pragma once
+
+#ifdef BLOCH_VERIF
+
+#include <cstdint>
+#include <cstdio>
+#include <cstdlib>
+#include <fstream>
+#include <functional>
+#include <string>
+#include <vector>
+
+namespace bloch::runtime::verif {
+
+    // Random draws as an input: when set, replaces the simulator's uniform draw.
+    inline std::function<double()>& drawProvider() {
+        static std::function<double()> p;
+        return p;
+    }
+
+    // Draws read once from the file named by BLOCH_VERIF_DRAWS (whitespace separated doubles),
+    // consumed in order; when exhausted the sequence restarts (so N shots can share a file).
+    struct EnvDraws {
+        std::vector<double> draws;
+        size_t next = 0;
+        bool loaded = false;
+        bool active = false;
+        void load() {
+            loaded = true;
+            const char* f = std::getenv("BLOCH_VERIF_DRAWS");
+            if (!f || !*f)
+                return;
+            std::ifstream in(f);
+            double d;
+            while (in >> d) draws.push_back(d);
+            active = !draws.empty();
+        }
+    };
+    inline EnvDraws& envDraws() {
+        static EnvDraws e;
+        return e;
+    }
+
+    inline bool overrideDraw(double& r) {
+        if (drawProvider()) {
+            r = drawProvider()();
+            return true;
+        }
+        auto& e = envDraws();
+        if (!e.loaded)
+            e.load();
+        if (e.active) {
+            r = e.draws[e.next % e.draws.size()];
+            ++e.next;
+            return true;
+        }
+        return false;
+    }
+
+    // ndjson event sink. Events are written after the state change they describe.
+    inline std::function<void(const std::string&)>& sink() {
+        static std::function<void(const std::string&)> s;
+        return s;
+    }
+    inline FILE*& envSinkFile() {
+        static FILE* f = nullptr;
+        return f;
+    }
+    inline bool sinkOn() {
+        if (sink())
+            return true;
+        static bool checked = false;
+        if (!checked) {
+            checked = true;
+            const char* f = std::getenv("BLOCH_VERIF_TRACE");
+            if (f && *f)
+                envSinkFile() = std::fopen(f, "a");
+        }
+        return envSinkFile() != nullptr;
+    }
+    inline void emit(const std::string& line) {
+        if (sink()) {
+            sink()(line);
+            return;
+        }
+        if (envSinkFile()) {
+            std::fputs(line.c_str(), envSinkFile());
+            std::fputc('\n', envSinkFile());
+            std::fflush(envSinkFile());
+        }
+    }
+
+}  // namespace bloch::runtime::verif
+
+#endif  // BLOCH_VERIF
